@@ -7,7 +7,6 @@ instead of VIOLATION (exit 1).  Entries of /verif/known_findings.json are matche
 listed finding is still printed as KNOWN-FINDING.  Keys are (rule id, key prefix up to the first colon)."""
 
 SHAPE_KEYS: set[tuple[str, str]] = {
-    ("C01.R3", "store"),
     ("C07.R3", "assert"),
     ("C09.R2", "base-mismatch"),
     ("C09.R2", "merge-bookkeeping"),
